@@ -14,7 +14,7 @@ PROPS = {
                  "tree renders to the input up to one trailing delimiter, every span is the substring holding its text, groups non-empty, "
                  "the lexer's terminal token is its last (never blocked). The hand-written model is tied to hash/parse by exhaustive small-scope "
                  "and random differential runs (tokens and trees incl. positions) against the real code, and against an independent split-based reference parser.",
-        "note": "lexPrefix (and the lexer's emit) are regenerated from the source and DispatchFlow.lexPrefixFlow_eq_model proves they produce the model's token stream; the fragment loop and Parse remain hand models. Trusted: Lean kernel + propext/Classical.choice/Quot.sound; the model↔code tie is differential (not for all inputs); channel = rendezvous; goroutine exit observed, not proved.",
+        "note": "The whole lexer and parser ARE the current code: lexPrefix, lexFragment, emit, errorf, run, NextToken, lex and Parse are regenerated from the source into a structured IR (loops, switch, `go`, the channel as a producer list consumed in order) and ParseFlow.lexerFlow_eq_model / parseFlow_eq_model prove that it evaluates to the model for EVERY input — token stream, tree with all spans, or the syntax error — never panics, terminates, and leaves the channel closed and drained (parseFlow_returns); proofs are written against canonical variable names, so renaming in the Go source does not break them. Trusted: Lean kernel + propext/Classical.choice/Quot.sound; the model↔code tie is differential (not for all inputs); channel = rendezvous; goroutine exit observed, not proved.",
         "rule": "parse: every string up to length 7 (quick) / 9 (thorough) over {$ , _ = a} (exhaustive) plus random byte strings up to 4 KiB; "
                 "each is parsed by Go, by the Lean model and by the Lean reference parser, token streams compared up to length 6; "
                 "non-trivial/distinct = distinct result trees (including spans) or errors",
